@@ -22,40 +22,49 @@ deriving DecidableEq, Repr
 /-- `rtosc_arg_val_itr_init` -/
 def Itr.init (av : List Cell) : Itr := ⟨av, 0, 0⟩
 
+/-- `av->type == '-'`, with `rtosc_av_rep_num(av)` and `rtosc_av_rep_has_delta(av)` -/
+def Cell.asRange : Cell → Option (Int × Int)
+  | .rep num hasDelta => some (num, hasDelta)
+  | _ => none
+
+/-- `av->type == 'a'`, with `rtosc_av_arr_type(av)` and `rtosc_av_arr_len(av)` -/
+def Cell.asArr : Cell → Option (UInt8 × Int)
+  | .arr ety len => some (ety, len)
+  | _ => none
+
 /-- `rtosc_arg_val_itr_get`: the returned pointer, as the suffix it points to
     (`[v]` for a value computed into `*buffer`). -/
-def Itr.get (it : Itr) : Res (List Cell) :=
-  match it.av with
-  | [] => .error .oob                                  -- itr->av->type
-  | .rep _ hasDelta :: rest =>
-    if hasDelta ≠ 0 then
-      match rangeArg it.av it.rangeI with              -- result ignored by the C code
-      | .ok v => .ok [v]
-      | .error e => .error e
-    else .ok rest                                      -- result = itr->av + 1
-  | _ :: _ => .ok it.av
+def Itr.get (it : Itr) : Res (List Cell) := do
+  let c ← deref it.av                                   -- itr->av->type
+  match c.asRange with
+  | some (_, hasDelta) =>
+    if hasDelta ≠ 0 then do
+      let v ← rangeArg it.av it.rangeI                  -- NULL result: indeterminate `*buffer`
+      pure [v]                                          -- result = buffer
+    else pure (it.av.drop 1)                            -- result = itr->av + 1
+  | none => pure it.av
 
 /-- `rtosc_arg_val_itr_next` -/
 def Itr.next (it : Itr) : Res Itr := do
   let c ← deref it.av
   -- increase the range index
   let it1 : Itr :=
-    match c with
-    | .rep num hasDelta =>
+    match c.asRange with
+    | some (num, hasDelta) =>
       let ri := it.rangeI + 1                           -- ++itr->range_i
       if (ri : Int) ≥ num ∧ num ≠ 0 then
         if hasDelta ≠ 0 then ⟨it.av.drop 2, it.i + 2, 0⟩
         else ⟨it.av.drop 1, it.i + 1, 0⟩
       else ⟨it.av, it.i, ri⟩
-    | _ => it
+    | none => it
   -- if not inside a range (or at its beginning), increase the index
   if it1.rangeI = 0 then do
     let c1 ← deref it1.av                               -- itr->av->type
-    match c1 with
-    | .arr _ len =>
+    match c1.asArr with
+    | some (_, len) =>
       if len < 0 then .error .undef                     -- pointer moved backwards: not modelled
       else pure ⟨it1.av.drop (len.toNat + 1), it1.i + len.toNat + 1, 0⟩
-    | _ => pure ⟨it1.av.drop 1, it1.i + 1, 0⟩
+    | none => pure ⟨it1.av.drop 1, it1.i + 1, 0⟩
   else pure it1
 
 /-- The values a caller sees when it walks a list the way `rtosc_avmessage` does:
